@@ -296,6 +296,31 @@ func runText(ctx *bex.Ctx, r *runner) {
 			}
 		}
 	}
+	// an alias with comments tight against it (comments enabled): the alias is an operator token like its
+	// ASCII spelling, and the comment is layout; the reference spelling has a blank or the comment's line
+	// break in the comment's place (the ASCII spelling of ÷ followed by a comment would itself be a comment)
+	cmtTemplates := []string{"a@#b", "a#@b", "a#@#b", "2@#3", "( a )#@#( b )", "a . k@#1", "[ a@#b , 1 ]", "a@#- b"}
+	cmtUnTemplates := []string{"@#a", "a * @#b", "#@a"}
+	comments := []struct{ text, layout string }{{"/*c*/", " "}, {"//c\n", "\n"}, {"/*\n*/", "\n"}, {"/**/", " "}, {"/*/*/", " "}, {"//\n", "\n"}}
+	for _, al := range [][2]string{{"•", "*"}, {"×", "*"}, {"÷", "/"}, {"–", "-"}, {"ˆ", "^"}} {
+		tpl := cmtTemplates
+		if al[1] == "-" {
+			tpl = append(append([]string{}, cmtTemplates...), cmtUnTemplates...)
+		}
+		for _, t := range tpl {
+			for _, cm := range comments {
+				for _, c := range []*config{getConfig(false, true), getConfig(true, true)} {
+					idx++
+					if !ctx.Mine(idx) {
+						continue
+					}
+					src := strings.ReplaceAll(strings.ReplaceAll(t, "@", al[0]), "#", cm.text)
+					want := strings.ReplaceAll(strings.ReplaceAll(t, "@", al[1]), "#", cm.layout)
+					r.text(c, textCase{space: "aliases", src: src, want: want, mode: "same-as"}, true, nil)
+				}
+			}
+		}
+	}
 	supTemplates := []string{"a@", "2@", "( a )@", "a@+b", "a . k@", "a@ * 2", "- a@", "a\n@", "a [ 0 ]@", "a( )@", "[ a@ , b@ ]", "'q/*'@"}
 	for d, sup := range []string{"⁰", "¹", "²", "³", "⁴", "⁵", "⁶", "⁷", "⁸", "⁹"} {
 		for _, t := range supTemplates {
@@ -308,7 +333,7 @@ func runText(ctx *bex.Ctx, r *runner) {
 			}
 		}
 	}
-	ctx.SpaceDone(fmt.Sprintf("5 operator aliases x %d binary (+ %d unary for –) templates and 10 superscript digits x %d templates, each against its ASCII spelling (same tree, same lines); 4 configurations", len(binTemplates), len(unTemplates), len(supTemplates)))
+	ctx.SpaceDone(fmt.Sprintf("5 operator aliases x %d binary (+ %d unary for –) templates and 10 superscript digits x %d templates, each against its ASCII spelling (same tree, same lines); 4 configurations; with comments enabled also %d (+ %d) templates x 6 comments written tight before and/or behind the alias", len(binTemplates), len(unTemplates), len(supTemplates), len(cmtTemplates), len(cmtUnTemplates)))
 
 	// ---- comfort mode juxtaposition
 	ctx.Space("juxtaposition")
